@@ -55,12 +55,17 @@ CONSTANTS
     ForgetMemoOfReleased,   \* at zero the resolve status of the dropped layer is forgotten (added by the repair)
     ResetMemoAtLastRelease, \* no counter left for the image => its resolve status is reset
     DropOnlyAtZero,         \* the layer is Done()d and dropped only when its counter reaches zero
-    DoneDuplicate           \* a freshly resolved layer that is already cached is Done()d at once
+    DoneDuplicate,          \* a freshly resolved layer that is already cached is Done()d at once
+    ResolveDetached,        \* the resolve goroutines of getLayer run with their own context ("avoids to get canceled by
+                            \*   client"); FALSE: they inherit the caller's context, and a caller that gives up while the
+                            \*   registry request is pending turns into a REMEMBERED failure of the layer
+    Cancels                 \* TRUE: explore lookups whose caller gives up (ctx cancelled) while resolution is in flight
 
 VARIABLES
     layer,   \* [ref -> [T -> BOOLEAN]]          r.layer[ref][toc] exists
     cnt,     \* [ref -> [T -> Int]]              r.refcounter[ref][toc], NoCnt = no entry
-    memo,    \* [ref -> [Own(ref) -> none|ok|err]] r.resolveLayerCache[ref][layer digest]
+    memo,    \* [ref -> [Own(ref) -> none|ok|err|cancelled]] r.resolveLayerCache[ref][layer digest]; err = a
+             \*                                  registry failure is remembered, cancelled = "context canceled" is
     out,     \* [ref -> [Own(ref) -> Nat]]       handles obtained from layer.Resolver and not yet Done()
     pool,    \* [ref -> Nat]                     refPool.refcounter[ref].count (0 = no entry)
     rc,      \* [ref -> [Own(ref) -> BOOLEAN]]   layer.Resolver has the layer in its own cache: resolving it
@@ -88,10 +93,13 @@ Img1x3    == [r1 |-> <<"a", "b", "c">>]
 
 ----------------------------------------------------------------------------
 (* resolveLayer(ref, l) with the registry failing for the layers in fail.   *)
-(* S is the part of the state it works on.                                  *)
-ResolveOne(S, r, l, fail) ==
+(* S is the part of the state it works on. cancel: the caller of getLayer   *)
+(* gives up while the registry requests of this call are pending.           *)
+ResolveOne(S, r, l, fail, cancel) ==
     IF S.memo[r][l] # "none"
     THEN S                                           \* "this resolving has already done": nothing, whatever the result was
+    ELSE IF ~S.rc[r][l] /\ cancel /\ ~ResolveDetached
+    THEN [S EXCEPT !.memo[r][l] = "cancelled"]       \* only without the detached context: the request dies with the caller
     ELSE IF ~S.rc[r][l] /\ l \in fail
     THEN [S EXCEPT !.memo[r][l] = "err"]             \* the error is remembered
     ELSE IF S.layer[r][l]                            \* cacheLayer: already exists -> discard the new handle
@@ -100,9 +108,9 @@ ResolveOne(S, r, l, fail) ==
     ELSE [S EXCEPT !.memo[r][l] = "ok", !.rc[r][l] = TRUE,
                    !.layer[r][l] = TRUE, !.out[r][l] = @ + 1]
 
-RECURSIVE ResolveAll(_, _, _, _)
-ResolveAll(S, r, ls, fail) ==
-    IF ls = <<>> THEN S ELSE ResolveAll(ResolveOne(S, r, Head(ls), fail), r, Tail(ls), fail)
+RECURSIVE ResolveAll(_, _, _, _, _)
+ResolveAll(S, r, ls, fail, cancel) ==
+    IF ls = <<>> THEN S ELSE ResolveAll(ResolveOne(S, r, Head(ls), fail, cancel), r, Tail(ls), fail, cancel)
 
 ----------------------------------------------------------------------------
 Init ==
@@ -115,20 +123,24 @@ Init ==
     /\ kids = [r \in Refs |-> [t \in T |-> {}]]
     /\ last = [act |-> "Init"]
 
-\* layernode.Lookup(diff|blob|info)
-Lookup(r, t, kind, fail) ==
+\* layernode.Lookup(diff|blob|info). cancel = the caller gives up (its context is cancelled) while at least one
+\* registry request of this call is pending; getLayer does not look at the caller's context, so the call still runs
+\* to its end and answers (to nobody)
+Lookup(r, t, kind, fail, cancel) ==
     LET viaNode == Fuse /\ kind \in kids[r][t]                  \* "lookup on memory nodes": the manager is not asked
         direct  == viaNode \/ kind = "info" \/ layer[r][t]      \* info: getLayerInfo answers for any digest
         S0 == [layer |-> layer, memo |-> memo, out |-> out, rc |-> rc]
-        S1 == IF direct THEN S0 ELSE ResolveAll(S0, r, Images[r], fail)   \* getLayer, slow path
+        S1 == IF direct THEN S0 ELSE ResolveAll(S0, r, Images[r], fail, cancel)   \* getLayer, slow path
+        pending == \E x \in Own(r) : memo[r][x] = "none" /\ ~rc[r][x]  \* some resolution will reach the registry
         ok == viaNode \/ kind = "info" \/ S1.layer[r][t]        \* the wanted layer showed up (Verify then holds)
     IN  /\ kind \in Kinds
         /\ fail \subseteq Own(r)
         /\ fail # {} => (Errors /\ ~direct)
+        /\ cancel => (Cancels /\ ~direct /\ pending /\ fail = {})
         /\ layer' = S1.layer /\ memo' = S1.memo /\ out' = S1.out /\ rc' = S1.rc
         /\ kids' = IF Fuse /\ ok THEN [kids EXCEPT ![r][t] = @ \cup {kind}] ELSE kids
         /\ UNCHANGED <<cnt, pool>>
-        /\ last' = [act |-> "Lookup", r |-> r, t |-> t, kind |-> kind, fail |-> fail,
+        /\ last' = [act |-> "Lookup", r |-> r, t |-> t, kind |-> kind, fail |-> fail, cancel |-> cancel,
                     res |-> IF ok THEN "ok" ELSE "fail"]
 
 \* layernode.Create("use") -> LayerManager.use
@@ -169,7 +181,7 @@ Release(r, t) ==
                       /\ kids' = IF Fuse /\ res = "ok" /\ n = 0 THEN [kids EXCEPT ![r][t] = {}] ELSE kids
 
 Next ==
-    \/ \E r \in Refs : \E t \in Targets(r), k \in Kinds, f \in SUBSET Own(r) : Lookup(r, t, k, f)
+    \/ \E r \in Refs : \E t \in Targets(r), k \in Kinds, f \in SUBSET Own(r), c \in BOOLEAN : Lookup(r, t, k, f, c)
     \/ \E r \in Refs : \E t \in Targets(r) : Use(r, t)
     \/ \E r \in Refs : \E t \in Targets(r) : Release(r, t)
 
@@ -208,10 +220,12 @@ UnknownDigestFails ==
     [][\A r \in Refs : (IsLayerLookup(last') /\ last'.r = r /\ ~IsOwn(r, last'.t)) => last'.res = "fail"]_vars
 
 \* looking up a digest of the image succeeds whatever was used and released before, unless the registry fails for
-\* that layer now or its failure is still remembered (the code keeps errors until the image is released)
+\* that layer now or a REGISTRY failure of it is still remembered (the code keeps errors until the image is
+\* released). A caller that gave up earlier is no excuse: a remembered "cancelled" must not make this lookup fail.
+\* The answer to a caller that has given up itself is not constrained.
 LookupSucceedsIffTocInImage ==
     [][\A r \in Refs :
-         (IsLayerLookup(last') /\ last'.r = r /\ IsOwn(r, last'.t) /\ last'.t \notin last'.fail
+         (IsLayerLookup(last') /\ last'.r = r /\ IsOwn(r, last'.t) /\ last'.t \notin last'.fail /\ ~last'.cancel
               /\ memo[r][last'.t] # "err")
            => last'.res = "ok"]_vars
 
@@ -232,7 +246,7 @@ LastReleaseDropsBookkeeping ==
 \* ... so that the next lookup resolves again (what LookupSucceedsIffTocInImage says for that situation, spelled out)
 NextLookupResolvesAgain ==
     [][\A r \in Refs :
-         (IsLayerLookup(last') /\ last'.r = r /\ IsOwn(r, last'.t) /\ last'.t \notin last'.fail
+         (IsLayerLookup(last') /\ last'.r = r /\ IsOwn(r, last'.t) /\ last'.t \notin last'.fail /\ ~last'.cancel
               /\ ~layer[r][last'.t] /\ Tracked(cnt, r) = {} /\ memo[r][last'.t] # "err"
               /\ ~(Fuse /\ last'.kind \in kids[r][last'.t]))
            => (last'.res = "ok" /\ layer'[r][last'.t] /\ memo'[r][last'.t] = "ok" /\ out'[r][last'.t] = 1)]_vars
@@ -247,11 +261,13 @@ ImageFullyDropped ==
 (* internal consistency (documents the design, not part of the property)    *)
 TypeOK ==
     /\ \A r \in Refs, t \in T : layer[r][t] \in BOOLEAN /\ cnt[r][t] \in Int /\ kids[r][t] \subseteq Kinds
-    /\ \A r \in Refs : \A l \in Own(r) : memo[r][l] \in {"none", "ok", "err"} /\ out[r][l] \in Nat /\ rc[r][l] \in BOOLEAN
+    /\ \A r \in Refs : \A l \in Own(r) : memo[r][l] \in {"none", "ok", "err", "cancelled"} /\ out[r][l] \in Nat /\ rc[r][l] \in BOOLEAN
     /\ \A r \in Refs : pool[r] \in Nat
 \* only layers of the image are ever cached
 OnlyOwnCached == \A r \in Refs, t \in T : layer[r][t] => IsOwn(r, t)
 \* the inductive reason for LookupSucceedsIffTocInImage: a remembered success means the layer is still cached
+\* with the detached context nothing of a caller's cancellation is ever remembered
+NoCancelRemembered == \A r \in Refs : \A l \in Own(r) : memo[r][l] # "cancelled"
 MemoOkMeansCached == \A r \in Refs : \A l \in Own(r) : memo[r][l] = "ok" => layer[r][l]
 \* a tracked counter is positive
 TrackedPositive == \A r \in Refs, t \in T : cnt[r][t] = NoCnt \/ cnt[r][t] >= 1
